@@ -10,6 +10,7 @@ import (
 )
 
 type loopInfo struct {
+	frameComps []string
 	ord      int
 	clauses  []Clause
 	riAlloc  *ssa.Alloc // rangeindex register, if a range-over-slice loop
@@ -105,6 +106,19 @@ func (fr *Frame) loopCut(b *ssa.BasicBlock, ord int, ci *cfgInfo) {
 		for _, n := range sortedBoolKeys(eff.comps) {
 			r.Heap.Havoc(fr.st, n)
 		}
+		// the function's frame is an implicit loop invariant: outside the modifies clause the havocked components
+		// still hold their entry values (assumed here, proved at every back edge)
+		if fr.top && fr.C != nil && !fr.C.ModAll && !r.inInit && fr.st.epoch == fr.entry.epoch {
+			for _, n := range sortedBoolKeys(eff.comps) {
+				if _, known := r.Heap.sorts[n]; !known {
+					continue
+				}
+				if f, ok := r.frameFormula(fr, n, fr.st.heap[n]); ok && f.S != "true" {
+					fr.assume(f)
+					li.frameComps = append(li.frameComps, n)
+				}
+			}
+		}
 	}
 	for a := range eff.regs {
 		if _, live := fr.st.regs[a]; live {
@@ -170,6 +184,16 @@ func (fr *Frame) loopBackEdge(h *ssa.BasicBlock, ord int, g Term) {
 	saved := fr.cur
 	fr.cur = g
 	fr.checkInvariants(li, "inv-preserve", h)
+	for _, n := range li.frameComps {
+		cur, ok := fr.st.heap[n]
+		if !ok || fr.st.epoch != fr.entry.epoch {
+			fr.R.addObl(fmt.Sprintf("loop%d:frame", li.ord), n, False, "loop body reaches code without a contract", nil, h.Instrs[0].Pos())
+			continue
+		}
+		if f, ok := fr.R.frameFormula(fr, n, cur); ok && f.S != "true" {
+			fr.R.addObl(fmt.Sprintf("loop%d:frame", li.ord), n, Implies(g, f), "loop body changes only what 'modifies' lists: "+n, nil, h.Instrs[0].Pos())
+		}
+	}
 	fr.cur = saved
 }
 
@@ -350,6 +374,13 @@ func (fr *Frame) callEffects(cc *ssa.CallCommon, eff *effects, depth int) {
 	}
 	fn := cc.StaticCallee()
 	if fn == nil {
+		if c := fr.C; c != nil && c.Callees != nil {
+			for _, n := range fr.calleeNames(cc) {
+				if cs, ok := c.Callees[n]; ok && !cs.ModAll && len(cs.Modifies) == 0 {
+					return
+				}
+			}
+		}
 		eff.all = true
 		return
 	}
